@@ -1228,6 +1228,37 @@ class VM:
 
         return False
 
+    def _adopt(self, value: JSValue) -> JSValue:
+        """Arrays and plain objects a built-in has just created (the result of
+        map, split, JSON.parse, Object.keys, exec ...) are ordinary ones: link them,
+        and what they contain, to Array.prototype / Object.prototype."""
+        if not isinstance(value, JSObject) or value._prototype is not None:
+            return value
+        array_proto = getattr(self.globals.get("Array"), "_prototype", None)
+        object_proto = getattr(self.globals.get("Object"), "_prototype", None)
+        work = [value]
+        while work:
+            item = work.pop()
+            if item._prototype is not None or getattr(item, "_null_prototype", False):
+                continue
+            if type(item) is JSArray:
+                if not isinstance(array_proto, JSObject):
+                    continue
+                item._prototype = array_proto
+                children = item._elements
+            elif type(item) is JSObject:
+                if not isinstance(object_proto, JSObject) or item is object_proto:
+                    continue
+                item._prototype = object_proto
+                children = item._properties.values()
+            else:
+                continue
+            work.extend(
+                child for child in children
+                if type(child) in (JSArray, JSObject) and child._prototype is None
+            )
+        return value
+
     def _list_from_array_like(self, value: JSValue) -> list:
         """The argument list `apply` builds from its second argument: nothing for
         undefined / null, the elements of an array, the indexed properties of any
@@ -2946,7 +2977,7 @@ class VM:
                 # A prototype method (Object.prototype.hasOwnProperty ...) called
                 # without a receiver: its this is undefined
                 result = callee(UNDEFINED, *args)
-                self.stack.append(result if result is not None else UNDEFINED)
+                self.stack.append(self._adopt(result) if result is not None else UNDEFINED)
                 return
             if getattr(callee, "_js_factory", None) is not None:
                 # var push = [].push; push(1): a method of a built-in kind called
@@ -2955,7 +2986,7 @@ class VM:
                     f"{callee._js_method} called on null or undefined"
                 )
             result = self._current_native(callee)(*args)
-            self.stack.append(result if result is not None else UNDEFINED)
+            self.stack.append(self._adopt(result) if result is not None else UNDEFINED)
         else:
             raise JSTypeError(f"{callee} is not a function")
 
@@ -2970,7 +3001,7 @@ class VM:
         elif isinstance(method, JSBoundMethod):
             # JSBoundMethod expects this_val as first argument
             result = method(this_val, *args)
-            self.stack.append(result if result is not None else UNDEFINED)
+            self.stack.append(self._adopt(result) if result is not None else UNDEFINED)
         elif callable(method):
             if getattr(method, "_js_factory", None) is not None:
                 # A built-in method stored on another object (o.m = [].join; o.m())
@@ -2982,7 +3013,7 @@ class VM:
                 ):
                     method = self._for_receiver(method, this_val)
             result = method(*args)
-            self.stack.append(result if result is not None else UNDEFINED)
+            self.stack.append(self._adopt(result) if result is not None else UNDEFINED)
         else:
             raise JSTypeError(f"{method} is not a function")
 
